@@ -987,3 +987,35 @@ pub proof fn lemma_if_shape(o: &Compiler, s1: &Compiler, sq: &Compiler, s7: &Com
     assert(has_op(f, q, Opcode::Jump));
     assert(if_at(o, f, cond, p, q));
 }
+
+// C13: the instruction that can fail at run time for an expression node carries the line of the node's own token
+pub open spec fn is_logical(s: Seq<char>) -> bool { s == "&&"@ || s == "||"@ }
+pub open spec fn op_line(e: Expression) -> Option<usize> {
+    match e {
+        Expression::Binary(b) => if is_logical(b.operator@) { None } else { Some(b.token.line) },
+        Expression::Unary(u) => Some(u.token.line),
+        Expression::Index(i) => Some(i.token.line),
+        Expression::Call(c) => Some(c.token.line),
+        Expression::Prop(p) => Some(p.token.line),
+        _ => None,
+    }
+}
+pub open spec fn last_line_is(o: &Compiler, f: &Compiler, line: usize) -> bool {
+    code(f).len() > code(o).len() && sc(f).last_ins.position >= code(o).len() && sc(f).last_ins.position < lns(f).len() && lns(f)[sc(f).last_ins.position as int] == line
+}
+// the opcode each binary operator compiles to ('<' and '<=' are compiled as '>' and '>=' with the operands swapped)
+pub open spec fn infix_opcode(s: Seq<char>) -> Opcode {
+    if s == "+"@ { Opcode::Add } else if s == "-"@ { Opcode::Sub } else if s == "*"@ { Opcode::Mul } else if s == "/"@ { Opcode::Div } else if s == "%"@ { Opcode::Mod }
+    else if s == "=="@ { Opcode::Equal } else if s == "!="@ { Opcode::NotEqual } else if s == ">"@ || s == "<"@ { Opcode::Greater } else if s == ">="@ || s == "<="@ { Opcode::GreaterEq }
+    else if s == "&"@ { Opcode::And } else if s == "|"@ { Opcode::Or } else if s == "^"@ { Opcode::Xor } else if s == "<<"@ { Opcode::ShiftLeft } else if s == ">>"@ { Opcode::ShiftRight }
+    else { Opcode::Invalid }
+}
+pub open spec fn unary_opcode(s: Seq<char>) -> Opcode {
+    if s == "!"@ { Opcode::Bang } else if s == "-"@ { Opcode::Minus } else if s == "~"@ { Opcode::Not } else if s == "$"@ { Opcode::Dollar } else { Opcode::Invalid }
+}
+pub proof fn lemma_strlits()
+    ensures "&&"@ != "||"@, "+"@.len() == 1, "-"@.len() == 1, "<<"@.len() == 2,
+{
+    reveal_strlit("&&"); reveal_strlit("||"); reveal_strlit("+"); reveal_strlit("-"); reveal_strlit("<<");
+    assert("&&"@[0] == '&'); assert("||"@[0] == '|');
+}
